@@ -174,6 +174,33 @@ GEN(int) @G(n int64, m @Level) {
 	}
 	RETURN
 }`, Drives: []Drive{gen("int", "@G", "3, 2")}},
+	{Name: "RangeNamedCollectionTypes", Props: []string{"C04", "C11"}, Src: `
+type @Name string
+type @IDs []int
+type @Index map[string]int
+type @Pipe chan int
+GEN(int) @G(s @Name, ids @IDs, ix @Index) {
+	for i, r := range s { // range over a value of a named string type
+		YIELD(i*1000 + int(r))
+	}
+	for i, v := range ids {
+		YIELD(i*10 + v)
+	}
+	t := 0
+	for k, v := range ix {
+		t += len(k) * v
+		YIELD(1)
+	}
+	YIELD(t)
+	p := make(@Pipe, 2)
+	p <- 5
+	p <- 6
+	close(p)
+	for v := range p {
+		YIELD(v)
+	}
+	RETURN
+}`, Drives: []Drive{gen("int", "@G", `"h\xffé", @IDs{7, 8}, @Index{"a": 2, "bcd": 3}`)}},
 	{Name: "RangeBodyRedeclares", Props: []string{"C04", "C03"}, Src: `
 // the body of a range statement is its own block: it may redeclare the range variables, and closures made
 // before the redeclaration keep seeing the range variables
